@@ -187,7 +187,7 @@ theorem result_of_documented {x : Sentence} (h : Documented x) : x.result = mean
     For every sentence of the documented grammar — any listed keyword or none, in any letter
     case; year only, month + year or day + month + year; any listed month word in any letter
     case; every year 1..9999 and every day valid in its month, each with any number of leading
-    zeros — written with any number of spaces around it and one to four spaces between its
+    zeros — written with any number of spaces around it and any number (at least one) between its
     tokens, both ends of the parsed range are exactly the written day, month, year and the
     keyword's constraint, and the range is valid. -/
 theorem single_forms (x : Sentence) (hx : Documented x) (gt : List (Nat × Str)) (e : Nat)
@@ -445,14 +445,9 @@ theorem prints_canonical (x : Sentence) (hx : Documented x) (gt : List (Nat × S
   obtain ⟨hp, _⟩ := parsed_of_valid hv
   rw [h1] at hp
   have hy : 1 ≤ (meaning x).year := hx.year.1
-  have hnz : (meaning x).isZero = false := by
-    have := hx.year.1
-    simp [PDate.isZero, meaning]; omega
   unfold DateRange.toString dateNodeToString
   rw [h1, h2]
-  have heq : (meaning x).equals (meaning x) = true := by
-    unfold PDate.equals; simp [hnz, is_self]
-  rw [if_pos heq, if_pos (is_self _), toString_eq hp hy]
+  rw [if_pos (is_self _), toString_eq hp hy]
   exact ⟨rfl, rfl⟩
 
 /-- **`DateNode.String` round trip.**  For *every* string `s` whatsoever whose parse is valid and
@@ -472,46 +467,49 @@ theorem canonical_node (s : Str) (hv : (parseDateRange s).isValid = true)
     rw [← e]; exact this
   · exact parse_rangeText hp1 hp2 hy1 hy2
 
-/-- the full statement for `DateRange.String` — the same without the last hypothesis — is false
-    of the code (`canonical_counterexample`): `DateRange.String` decides "one date or two" with
-    the constraint-aware `Equals`, so a range whose two different ends are `Equals` prints its
-    start only.  **Partial:** under the decidable guard "the ends are the same date, or are not
-    `Equals`" the round trip holds for every string. -/
-theorem canonical_partial (s : Str) (hv : (parseDateRange s).isValid = true)
-    (hy1 : 1 ≤ (parseDateRange s).start.year) (hy2 : 1 ≤ (parseDateRange s).end_.year)
-    (guard : (parseDateRange s).start.is (parseDateRange s).end_ = true ∨
-             (parseDateRange s).start.equals (parseDateRange s).end_ = false) :
+/-- **`DateRange.String` round trip.**  For *every* string `s` whatsoever whose parse is valid and
+    has a year at both ends: parsing what `DateRange.String` prints gives back exactly the same
+    start and end dates (day, month, year, constraint).  No guard: since the repair
+    (fixes/C04-range-string-uses-is.patch) `DateRange.String` prints one date only when both ends
+    are the same date. -/
+theorem canonical (s : Str) (hv : (parseDateRange s).isValid = true)
+    (hy1 : 1 ≤ (parseDateRange s).start.year) (hy2 : 1 ≤ (parseDateRange s).end_.year) :
     (parseDateRange (parseDateRange s).toString).start = (parseDateRange s).start ∧
     (parseDateRange (parseDateRange s).toString).end_ = (parseDateRange s).end_ := by
   obtain ⟨hp1, hp2⟩ := parsed_of_valid hv
-  have hnz : (parseDateRange s).start.isZero = false ∧ (parseDateRange s).end_.isZero = false := by
-    simpa [DateRange.isValid] using hv
   unfold DateRange.toString
-  rcases guard with his | hne
-  · have heq : (parseDateRange s).start.equals (parseDateRange s).end_ = true := by
-      unfold PDate.equals; simp [hnz.1, hnz.2, his]
-    rw [if_pos heq]
+  split
+  · next his =>
     have e := eq_of_is his hp1.err hp2.err
     have := parse_toString hp1 hy1
     rw [← e]; exact this
-  · rw [if_neg (by simp [hne])]
-    exact parse_rangeText hp1 hp2 hy1 hy2
+  · exact parse_rangeText hp1 hp2 hy1 hy2
 
-/-- **Counterexample to the unguarded statement** (defect: replayed on the implementation by the
-    harness).  `bet Aft. 1850 and 1900` is a valid forward range, but `DateRange.String` prints
-    only `Aft. 1850`, which parses to a range that ends at `Aft. 1850` instead of `1900`. -/
-theorem canonical_counterexample :
+/-- `DateRange.String` as it was *before* the repair: "one date or two" decided with the
+    constraint-aware `Equals`.  Not part of the model; kept only for the regression witness below. -/
+def toStringOld (r : DateRange) : Str :=
+  if r.start.equals r.end_ then r.start.toString else rangeText r.start r.end_
+
+/-- **Regression witness (old rule, not the code any more).**  With the old `Equals` test the valid
+    forward range `bet Aft. 1850 and 1900` printed as `Aft. 1850`, which parses to a range ending
+    at `Aft. 1850` instead of `1900`; the repaired printer gives both ends and `canonical` applies.
+    The harness replays the same sentence on the implementation, so reverting the repair is
+    reported with this input. -/
+theorem canonical_old_rule_witness :
     (parseDateRange (lit "bet Aft. 1850 and 1900")).isValid = true ∧
-    (parseDateRange (lit "bet Aft. 1850 and 1900")).toString = lit "Aft. 1850" ∧
-    (parseDateRange (parseDateRange (lit "bet Aft. 1850 and 1900")).toString).end_ ≠
-      (parseDateRange (lit "bet Aft. 1850 and 1900")).end_ := by decide
+    toStringOld (parseDateRange (lit "bet Aft. 1850 and 1900")) = lit "Aft. 1850" ∧
+    (parseDateRange (toStringOld (parseDateRange (lit "bet Aft. 1850 and 1900")))).end_ ≠
+      (parseDateRange (lit "bet Aft. 1850 and 1900")).end_ ∧
+    (parseDateRange (lit "bet Aft. 1850 and 1900")).toString = lit "Bet. Aft. 1850 and 1900" := by
+  decide
 
-/-- **Counterexample to unbounded spacing** (known finding): `CleanSpace` makes two passes, so a
-    run of five spaces is left at two and the sentence is reported invalid, while four spaces
-    are fine (`single_forms` allows one to four between tokens). -/
-theorem spacing_counterexample :
-    (parseDateRange (lit "abt     1900")).isValid = false ∧
-    (parseDateRange (lit "abt    1900")).isValid = true := by decide
+/-- spacing is unbounded since the repair fixes/C04-cleanspace-all-runs.patch (`CleanSpace` repeats
+    its pass until no double space is left; with the former two passes a run of five spaces was
+    left at two and `abt     1900` was invalid) — a concrete instance of `single_forms`, by
+    evaluation -/
+example : (parseDateRange (lit "abt     1900")).start = ⟨0, 0, 1900, .about, false⟩ ∧
+    (parseDateRange (lit "  bet   1850             and     Bef.      3  Sep   1900   ")).end_ =
+      ⟨3, 9, 1900, .before, false⟩ := by decide
 
 /-! ## non-vacuity: concrete sentences that meet the hypotheses (tests, not properties) -/
 
